@@ -76,3 +76,9 @@ Theorem C16_src_to_index_is_from_str_of_encoded : forall t : Token, utf8_valid (
   gen_Token_to_index t = Ret (prim_to_index t) /\ gen_Index_try_from_ref_Token t = Ret (prim_to_index t).
 Proof. exact gen_Token_to_index_is_prim. Qed.
 Print Assumptions C16_src_to_index_is_from_str_of_encoded.
+
+(* Display of an Index, re-translated: the decimal spelling of the number (no sign, no leading zeros), or "-" *)
+Theorem C16_src_display : forall i : Index,
+  gen_Index_display i = Ret (match i with Index_Num n => Dec.dec_of_N n | Index_Next => [45] end).
+Proof. exact gen_display_index. Qed.
+Print Assumptions C16_src_display.
